@@ -281,7 +281,10 @@ fn children_mut<'a>(tree: &'a mut Vec<Field>, path: &[usize]) -> &'a mut Vec<Fie
 }
 
 fn push_inserts(fields: &[Field], prefix: &Path, out: &mut Vec<Mut1>) {
-    for num in 1..=INSERT_MAX_NUM {
+    // proto3 does not write default values: the absent numbers up to two past the largest
+    // one present (at most INSERT_MAX_NUM) are the candidates for such fields
+    let top = fields.iter().map(|f| f.num).max().unwrap_or(0).saturating_add(2).min(INSERT_MAX_NUM);
+    for num in 1..=top {
         if fields.iter().all(|f| f.num != num) {
             for v in 0..INSERT_VARIANTS {
                 out.push(Mut1::Insert(prefix.clone(), num, v));
